@@ -131,8 +131,8 @@ def run(ck, facts, tier):
     ck.floor(R, "RecordedItemId-variants", len(variants), 6)
     OUT_OF_FRAGMENT = {"Coroutine": "collector arm is `unimplemented!()`; coroutines are outside the C01/C05/C07 fragment C23 quantifies over"}
     if cu and wi and variants:
-        mc = enum_matches(cu.thir, "chalk_solve::logging_db::RecordedItemId")
-        mw = enum_matches(wi.thir, "chalk_solve::logging_db::RecordedItemId")
+        mc = enum_matches(facts.thir(cu.key), "chalk_solve::logging_db::RecordedItemId")
+        mw = enum_matches(facts.thir(wi.key), "chalk_solve::logging_db::RecordedItemId")
         if len(mc) != 1 or len(mw) != 1:
             ck.violation(R, "match-on-RecordedItemId", cu.where(), "expected exactly one match on RecordedItemId in each function")
         else:
@@ -184,7 +184,7 @@ def run(ck, facts, tier):
     base = "<chalk_solve::logging_db::id_collector::IdCollector as chalk_ir::visit::TypeVisitor>::"
     vt = need_body(ck, facts, R, base + "visit_ty")
     if vt:
-        ms = enum_matches(vt.thir, "chalk_ir::TyKind")
+        ms = enum_matches(facts.thir(vt.key), "chalk_ir::TyKind")
         spec = {"Adt": "IdCollector::record", "FnDef": "IdCollector::record", "OpaqueType": "IdCollector::record",
                 "Alias": "IdCollector::visit_alias"}
         if len(ms) != 1:
@@ -205,7 +205,7 @@ def run(ck, facts, tier):
             ck.violation(R, "visit_ty:continues-traversal", vt.where(), "visit_ty must end in ty.super_visit_with(..)")
     vw = need_body(ck, facts, R, base + "visit_where_clause")
     if vw:
-        ms = enum_matches(vw.thir, "chalk_ir::WhereClause")
+        ms = enum_matches(facts.thir(vw.key), "chalk_ir::WhereClause")
         spec = {"Implemented": "IdCollector::record", "AliasEq": "IdCollector::visit_alias"}
         if len(ms) != 1:
             ck.violation(R, "visit_where_clause:match", vw.where(), "expected one match on WhereClause")
@@ -225,7 +225,7 @@ def run(ck, facts, tier):
             ck.violation(R, "visit_where_clause:continues-traversal", vw.where(), "must end in where_clause.super_visit_with(..)")
     va = need_body(ck, facts, R, "chalk_solve::logging_db::id_collector::IdCollector::visit_alias")
     if va:
-        ms = enum_matches(va.thir, "chalk_ir::AliasTy")
+        ms = enum_matches(facts.thir(va.key), "chalk_ir::AliasTy")
         if len(ms) == 1:
             for v, fld in (("Projection", "trait_id"), ("Opaque", "opaque_ty_id")):
                 arms = select_arms(ms[0], V(v))
